@@ -3,7 +3,7 @@
    the name line. *)
 From Coq Require Import List NArith ZArith Bool Arith Lia.
 From LMBase Require Import Res ListX IEEE.
-From LMIo Require Import IoBase IoNom IoJaspar IoUniprobe IoPrint IoPrintU
+From LMIo Require Import GenIoAbc IoBase IoNom IoJaspar IoUniprobe IoPrint IoPrintU
      IoBaseProofs IoNomProofs IoTokProofs IoLineProofs.
 Import ListNotations.
 
@@ -456,7 +456,9 @@ Proof.
               _ _ _ _ _ _ _ _ _ _ H1 H2 H3) as [n123 H123].
   unfold uniprobe_line. rewrite <- !app_assoc. cbn [app]. rewrite Ee.
   unfold u_matrix_column.
-  exact (terminated_ok _ p_line_ending _ _ _ _ _ _ _ H123 H4).
+  assert (u_col_end (e :: Y) = POk X n4 le) as H4'.
+  { unfold u_col_end, u_col_end_of. destruct gen_uniprobe_col_eof; [unfold p_alt; rewrite H4; reflexivity|exact H4]. }
+  exact (terminated_ok _ u_col_end _ _ _ _ _ _ _ H123 H4').
 Qed.
 
 (* ---------- the name line ---------- *)
